@@ -48,14 +48,18 @@ func tokenOracle(s *sut, token string, r Req) (viol string, obliged bool, self s
 }
 
 func TestC10Token(t *testing.T) {
-	sub := lab.Sub("admin-token", "rapid: auth_token from a string generator (incl. blanks, 'Bearer' inside, non-ASCII) x Authorization spelling from a near-miss table "+
+	sub := lab.Sub("admin-token", "rapid: auth_token from a string generator (about half long: 65..400 bytes, JWT-shaped header.payload.signature or random printable, lengths biased to 65/100/121/128/129/256/257/400; "+
+		"the rest short and odd: blanks, 'Bearer' inside, non-ASCII, 1..64 runes) x Authorization spelling from a near-miss table "+
 		"(absent, exact, wrong, scheme case, double space, tab, trailing junk, token as prefix/suffix of the presented one, truncated, case-flipped, empty token, no scheme, other scheme, comma-joined, "+
-		"two field lines in both orders) x request (every endpoint with its documented method and a VALID mutating body, every endpoint with 11 odd methods, 16 near-miss paths); "+
+		"two field lines in both orders; related to the configured token: only its first 32/64/100/128 bytes, the header value cut at 32/64/128/256 bytes, last byte changed, tail replaced after byte 57/64/100, "+
+		"trailing garbage, another token sharing exactly the first 57/64/100/128/n-8/n-1 bytes, same JWT claims with another signature) x request (every endpoint with its documented method and a VALID mutating body, every endpoint with 11 odd methods, 16 near-miss paths); "+
 		"fresh real balancer + adminapi.NewMux per request, no IP lists; oracle: unless some Authorization line equals 'Bearer <token>' exactly: 401 on every endpoint path except /v1/health "+
 		"(any non-2xx on non-endpoint paths), backend multiset unchanged, strategy still round_robin by behaviour, body+headers contain no backend name/address/metrics key; a single exact line => not 401; "+
 		"two lines with one exact: unconstrained; non-trivial = the presented value is a near miss of the exact one on a non-health path")
 	sub.NontrivialFloor(0.30)
 	sub.Floor("kind-mutating", 0.25)
+	sub.Floor("token-long(65..400 bytes)", 0.25)
+	sub.Floor("long-token-related-near-miss", 0.08)
 	lab.Check(t, sub, 20000, 600000, func(rt *rapid.T) {
 		token := genToken(rt)
 		r := genReq(rt)
@@ -76,6 +80,15 @@ func TestC10Token(t *testing.T) {
 		labels := []string{"auth-" + class, "kind-" + r.Kind}
 		if r.Kind == "add" || r.Kind == "remove" || r.Kind == "strategy" {
 			labels = append(labels, "kind-mutating")
+		}
+		if len(token) >= 65 {
+			labels = append(labels, "token-long(65..400 bytes)")
+			if strings.Count(token, ".") == 2 && strings.HasPrefix(token, "eyJ") {
+				labels = append(labels, "token-jwt-shaped")
+			}
+			if strings.HasPrefix(class, "near-long-") {
+				labels = append(labels, "long-token-related-near-miss")
+			}
 		}
 		nt := obliged && (strings.HasPrefix(class, "near-") || class == "two-lines-none-exact")
 		sub.Case(map[string]any{"token": token, "req": r}, nt, labels...)
